@@ -83,6 +83,7 @@ func cmdCheck(args []string) int {
 	}
 	var fvs []*funcVC
 	nerr := 0
+	nunbound := 0
 	var under []string
 	for _, name := range targets {
 		ct := eng.cs.ByTarget[name]
@@ -95,20 +96,35 @@ func cmdCheck(args []string) int {
 		fn := eng.funcs[name]
 		if fn == nil {
 			fmt.Printf("UNBOUND contract=%s (no such function in the current tree)\n", name)
-			nerr++
+			sn := eng.shortName(name)
+			fvs = append(fvs, &funcVC{Name: sn, Items: []Item{{Kind: itOblig, Ob: &Oblig{Name: sn + "/binding#0", Kind: "binding", Guard: "true", Formula: "false", Desc: "the function under contract no longer exists", Fn: sn}}}})
+			under = append(under, sn)
 			continue
 		}
 		t := translateFunc(eng, fn, ct)
 		fv := &funcVC{Name: eng.shortName(name), Items: t.items, Errs: t.errs, RetReach: t.retBlocks, tr: t}
-		for _, e := range t.errs {
-			fmt.Printf("UNSUPPORTED %s: %s\n", fv.Name, e)
-			nerr++
+		if len(t.errs) > 0 {
+			// The contract no longer binds to the code (new loop without invariant, renamed loop variable,
+			// call without contract, construct outside the subset): the obligations of this function that
+			// were discharged on the verified tree can no longer be established. Reported as one failed
+			// obligation (no counterexample exists for it).
+			for _, e := range t.errs {
+				fmt.Printf("UNBOUND %s: %s\n", fv.Name, e)
+			}
+			desc := "contract does not bind to the current code: " + strings.Join(t.errs, "; ")
+			if len(desc) > 600 {
+				desc = desc[:600] + "..."
+			}
+			fv.Items = []Item{{Kind: itOblig, Ob: &Oblig{Name: fv.Name + "/binding#0", Kind: "binding", Guard: "true", Formula: "false", Desc: desc, Fn: fv.Name}}}
+			fv.RetReach = nil
+			fv.tr = nil
+			nunbound++
 		}
 		fvs = append(fvs, fv)
 		under = append(under, fv.Name)
 	}
 	if nerr > 0 {
-		fmt.Printf("govc: %d translation errors; the affected functions are undecided\n", nerr)
+		fmt.Printf("govc: %d contracts name functions that do not exist; undecided\n", nerr)
 		return 2
 	}
 	dir, _ := os.MkdirTemp("", "govc")
